@@ -1,4 +1,4 @@
-import PikaVerif.Lemmas.Stop
+import PikaVerif.Lemmas.Stop3
 import PikaVerif.Lemmas.StopRef
 /-!
 # C14 — stop_token: one winning stop request, each callback exactly once
@@ -93,6 +93,107 @@ theorem C14_query_reports_bit (s s' : St) (a : Nat) (rq poss : Bool)
   simp only [step] at h
   split at h
   · rename_i hg; exact ⟨hg.2.1, hg.2.2⟩
+  · simp at h
+
+
+/-! ## Callback life cycle (invariant B) -/
+
+theorem invAB_of_reachable {s : St} (h : Reachable s) : InvA s ∧ InvB s := by
+  obtain ⟨n, K, ident, fc, srcs, log, hl⟩ := h
+  exact invAB_of_accepted hl
+
+/-- **At most once.**  In every execution every callback body is entered at most once. -/
+theorem C14_at_most_once (s : St) (hr : Reachable s) (c : Nat) : s.runs c ≤ 1 :=
+  (invAB_of_reachable hr).2.runsLe c
+
+/-- **Exactly once if stop is requested.**  In every reachable state in which stop is requested
+    and the winning `request_stop` has left its callback loop (in particular in every state in
+    which all activities are idle), every callback whose constructor has returned, whose
+    destructor has not been started and that was registered (`add_callback` returned true) or
+    run from its constructor has been invoked exactly once. -/
+theorem C14_exactly_once_if_requested (s : St) (hr : Reachable s) (hq : s.req = true)
+    (hdone : ∀ w, s.winner = some w → wAct (s.pc w) = 0)
+    (c : Nat) (hl : s.life c = .live) (hreg : s.kept c = true ∨ s.ranInl c = true) :
+    s.runs c = 1 := by
+  obtain ⟨hA, hB⟩ := invAB_of_reachable hr
+  rcases hreg with hk | hi
+  · have hp : s.pushed c = true := by
+      have := hB.keptP c (by simp [hl, started]); rw [← this]; exact hk
+    have hw : ∃ w, s.winner = some w := by
+      cases hwn : s.winner with
+      | none => have := hA.winReq2 hwn; rw [hq] at this; simp at this
+      | some w => exact ⟨w, rfl⟩
+    obtain ⟨w, hw⟩ := hw
+    rcases hB.pushedWhere c hp with h1 | h1 | h1 | h1
+    · have hne : s.list ≠ [] := by intro e; rw [e] at h1; simp at h1
+      have := hA.listWin hne w hw
+      rw [hdone w hw] at this; simp at this
+    · have hle := hB.runsLe c
+      by_cases h0 : s.runs c = 0
+      · have hwo := hB.deqWinner c h1
+        have hz := hdone _ hwo
+        rcases hB.deqRuns c h1 h0 with hpc | hpc <;> rw [hpc] at hz <;> simp [wAct, b2n] at hz
+      · omega
+    · rw [hl] at h1; simp at h1
+    · rw [hl] at h1; simp at h1
+  · exact hB.inlRuns c hi
+
+/-- the loop-exit hypothesis of the previous theorem holds whenever every activity is idle or finished -/
+theorem C14_quiescent_loop_done (s : St) (hq : ∀ a, s.pc a = .idle ∨ s.pc a = .fin) :
+    ∀ w, s.winner = some w → wAct (s.pc w) = 0 := by
+  intro w _
+  rcases hq w with h | h <;> simp [h, wAct]
+
+/-- **Immediately in the constructor if stop was already requested.**  `reqAtReg c` records the
+    stop-requested bit at the moment the constructor of `c` was invoked (`reqAtReg_spec`); if it
+    was set, then once the constructor has returned the callback has been run from inside that
+    constructor, exactly once. -/
+theorem C14_immediate_if_already (s : St) (hr : Reachable s) (c : Nat)
+    (hl : started (s.life c) = true) (hq : s.reqAtReg c = true) :
+    s.ranInl c = true ∧ s.runs c = 1 := by
+  obtain ⟨_, hB⟩ := invAB_of_reachable hr
+  have h1 := hB.atRegLive c hl hq
+  exact ⟨h1, hB.inlRuns c h1⟩
+
+theorem reqAtReg_spec (s s' : St) (a c : Nat) (h : step s (.inv a (.reg c)) = some s') :
+    s'.reqAtReg c = s.req := by
+  simp only [step] at h
+  split at h
+  · split at h
+    · simp only [Option.some.injEq] at h; subst h; simp
+    · simp at h
+  · simp at h
+
+/-- **A callback is invoked only while its object is alive, from the constructor, or after it
+    was dequeued** (partial form of "never after its destructor has returned"): whenever the model
+    accepts `cb.begin`, the callback has never run before, and it is either being constructed by
+    the invoking activity or was dequeued by the invoking `request_stop`.  The full clause (the
+    object's destructor has not returned) additionally needs the program order of each thread;
+    it is checked on every implementation history by the monitor
+    "callback invoked after its destructor returned". -/
+theorem C14_not_after_dtor_partial (s s' : St) (hr : Reachable s) (a c : Nat)
+    (h : step s (.cbBegin a c) = some s') :
+    s.runs c = 0 ∧ s.owner c = a ∧ (s.life c = .ctor ∨ s.deqd c = true) := by
+  obtain ⟨_, hB⟩ := invAB_of_reachable hr
+  simp only [step] at h
+  split at h
+  · split at h
+    · rename_i c' inl hp
+      split at h
+      · rename_i hc; subst hc
+        cases inl with
+        | true =>
+          have h1 := hB.regP a c' (by simp [hp, regPhase])
+          have h2 := hB.runsR a c' (by simp [hp, regPhase])
+          have h3 := hB.ownerR a c' (by simp [hp, regPhase])
+          exact ⟨by simpa [hp, ranOf] using h2, h3, Or.inl h1.1⟩
+        | false =>
+          have h1 := hB.winP a c' (by simp [hp, winPhase])
+          have h2 := hB.runsW a c' (by simp [hp, winPhase])
+          have h3 := hB.ownerW a c' (by simp [hp, winPhase])
+          exact ⟨by simpa [hp, ranOf] using h2, h3, Or.inr h1⟩
+      · simp at h
+    · simp at h
   · simp at h
 
 /-! ## The pinned tree (`fixCas = false`): machine-checked counterexamples -/
